@@ -8,6 +8,15 @@ from .. import apilevel as A, docx_builder as B, gen_xml, oracle_html as O
 from ..gen_xml import xml_json
 
 MAPS = ["comment-reference => sup", None, "comment-reference => sup\np.Quote => blockquote > p:fresh", "r.Hyperlink => span.link"]
+LINKS_HEADER = """From Mammoth Require Import EndToEndSpec LinksSpec.
+Definition chk_links (c : list (str * dpart) * bool * list (str * img_src) * api_opts * option (str * list str) * option (str * list str)) : bool :=
+  let '(parts, named, linked, a, _, _) := c in
+  let s := mkSource (package_of parts) named linked in
+  match read_docx s, opts_in_force s a with
+  | Ok (d, _), Ok o => links_agree o d
+  | _, _ => true
+  end.
+"""
 HREF_FIELD = re.compile(r'^\s*HYPERLINK "([^"]*)"')
 ANCHOR_FIELD = re.compile(r'^\s*HYPERLINK\s+\\l\s+"([^"]*)"')
 
@@ -268,9 +277,13 @@ def run(ctx):
                         ctx.sample({"html": html.value[:300]})
             terms.append(A.case_term(parts, False, {}, opts, html, raw))
             metas.append(meta)
-    for i in ctx.coq_eval("c10", A.HEADER, terms, A.CASE_TYPE, "chk_api", shard=12)[:5]:
+    for i in ctx.coq_eval("c10", A.HEADER + LINKS_HEADER, terms, A.CASE_TYPE, "chk_api", shard=12, more=("chk_links",))[:5]:
         ctx.violation("correspondence", "model and implementation disagree",
                       dict(metas[i], obligation="correspondence Model/Api.v vs mammoth.convert_to_html"), False)
+    # the statement of C10_note_links_resolve / C10_bookmarks_have_ids, evaluated on the model's forest for every generated package
+    for i in ctx.more_bad["chk_links"][:5]:
+        ctx.violation("proof", "a note reference or a bookmark of the document has no counterpart id / href in the forest (Proofs/LinksSpec.v: links_agree is false)",
+                      dict(metas[i], obligation="Props/C10.v: C10_note_links_resolve / C10_bookmarks_have_ids evaluated on this package"), False)
     ctx.coverage["traces_validated_against_impl"] = len(terms)
     ctx.coverage["input_distribution"] = dist
     ctx.coverage["rule"] = ("packages with interleaved relationship / anchor / field-code hyperlinks (nested fields, split instruction text, \\\\o and \\\\t switches), "
